@@ -40,7 +40,7 @@ func fileread(t *rt.Thread, c *rt.GoCont) (rt.Cont, error) {
 	return next, nil
 }
 
-type formatReader func(*File) (rt.Value, error)
+type formatReader func(*rt.Runtime, *File) (rt.Value, error)
 
 var errInvalidFormat = errors.New("invalid format")
 var errFormatOutOfRange = errors.New("format out of range")
@@ -50,13 +50,13 @@ func getFormatReader(fmt rt.Value) (reader formatReader, err error) {
 		if n < 0 {
 			return nil, errFormatOutOfRange
 		}
-		reader = func(f *File) (rt.Value, error) { return f.Read(int(n)) }
+		reader = func(r *rt.Runtime, f *File) (rt.Value, error) { return f.Read(r, int(n)) }
 	} else if s, ok := fmt.TryString(); ok && len(s) > 0 {
 		switch s {
 		case "n", "*n":
-			reader = (*File).ReadNumber
+			reader = func(_ *rt.Runtime, f *File) (rt.Value, error) { return f.ReadNumber() }
 		case "a", "*a", "all":
-			reader = (*File).ReadAll
+			reader = func(r *rt.Runtime, f *File) (rt.Value, error) { return f.ReadAll(r) }
 		case "l", "*l":
 			reader = lineReader(false)
 		case "L", "*L":
@@ -90,7 +90,7 @@ func read(r *rt.Runtime, f *File, readers []formatReader, next rt.Cont) error {
 		readers = []formatReader{lineReader(false)}
 	}
 	for i, reader := range readers {
-		val, readErr := reader(f)
+		val, readErr := reader(r, f)
 		if readErr == nil {
 			r.Push1(next, val)
 		} else if i == 0 || readErr != io.EOF {
@@ -101,7 +101,7 @@ func read(r *rt.Runtime, f *File, readers []formatReader, next rt.Cont) error {
 }
 
 func lineReader(withEnd bool) formatReader {
-	return func(f *File) (rt.Value, error) {
-		return f.ReadLine(withEnd)
+	return func(r *rt.Runtime, f *File) (rt.Value, error) {
+		return f.ReadLine(r, withEnd)
 	}
 }
